@@ -790,7 +790,10 @@ class Builtins:
         return new
 
     def slist_remove(self, lst, x, node):
-        raise EngineError("remove on SMT list: needs a contract-level model")
+        """list.remove(x): deletes the FIRST item that is x or == x (data-model ==); ValueError when there is none (a safety obligation here)"""
+        idx = self.slist_index(lst, x, node)
+        self.slist_pop(lst, idx, node)
+        return NONE
 
     def slist_index(self, lst, x, node):
         """first index whose item equals x"""
